@@ -7,6 +7,9 @@ require (
 	pgregory.net/rapid v1.3.0
 )
 
-require github.com/google/uuid v1.6.0 // indirect
+require (
+	github.com/google/uuid v1.6.0 // indirect
+	github.com/gorilla/websocket v1.5.3 // indirect
+)
 
 replace github.com/glyphlang/glyph => /repo
